@@ -512,6 +512,7 @@ type Contract struct {
 	Private   []string    // parameters whose pointee is not reachable by foreign code
 	Decreases map[int][]*Clause
 	Progress  map[int][]string
+	NoCall    bool // closure arguments are stored, not invoked, by this function
 }
 
 type SpecFunc struct {
@@ -556,6 +557,7 @@ type ContractSet struct {
 	IfaceEns []*SinkRule        // iface-ensures <Iface>.<Method>(params) E   (assumed interface contract)
 	IfacePure map[string]bool   // method names of interfaces treated as deterministic, effect-free observers
 	Lemmas   []*SpecFunc        // lemma name(params) = E  (proved by SMT for all parameter values)
+	PureFnTypes map[string]bool // named func types whose values never modify the verified package's memory
 }
 
 type PkgMode struct {
@@ -564,14 +566,14 @@ type PkgMode struct {
 }
 
 func NewContractSet() *ContractSet {
-	return &ContractSet{Funcs: map[string]*Contract{}, Specs: map[string]*SpecFunc{}, Guarded: map[string]string{}, Immut: map[string]bool{}, PkgMode: map[string]PkgMode{}, ObjInvs: map[string][]*Clause{}, IfacePure: map[string]bool{}}
+	return &ContractSet{Funcs: map[string]*Contract{}, Specs: map[string]*SpecFunc{}, Guarded: map[string]string{}, Immut: map[string]bool{}, PkgMode: map[string]PkgMode{}, ObjInvs: map[string][]*Clause{}, IfacePure: map[string]bool{}, PureFnTypes: map[string]bool{}}
 }
 
 var clauseKeywords = map[string]bool{
 	"func": true, "requires": true, "ensures": true, "loop": true, "modifies": true, "trusted": true,
 	"pure": true, "inline": true, "noinline": true, "strings": true, "bytes": true, "panics": true, "bind": true, "sink": true,
 	"axiom": true, "log": true, "atomic": true, "guarded_by": true, "immutable": true, "must-close": true,
-	"opaque": true, "unroll": true, "yield-requires": true, "invariant": true, "seq-items": true, "private": true, "iface-ensures": true, "iface-pure": true, "lemma": true, "producer": true, "closure": true, "package": true, "assume-return": true,
+	"opaque": true, "unroll": true, "yield-requires": true, "invariant": true, "seq-items": true, "private": true, "iface-ensures": true, "iface-pure": true, "lemma": true, "holds": true, "fn-sink": true, "nocall": true, "fn-type-pure": true, "producer": true, "closure": true, "package": true, "assume-return": true,
 }
 
 // LoadContractFile parses one contracts_verif.go file (or any file with //@ lines).
@@ -876,15 +878,53 @@ func (cs *ContractSet) LoadContractFile(path, pkgPath string) error {
 			}
 			cs.Sinks = append(cs.Sinks, sr)
 		case "guarded_by":
-			// guarded_by Type.mu: f1, f2
+			// guarded_by Type.mu: Type.f1, Other.f2   (fields may belong to other
+			// struct types of the package: then any held Type.mu suffices)
 			parts := strings.SplitN(rest, ":", 2)
 			if len(parts) == 2 {
 				tl := strings.TrimSpace(parts[0]) // Type.mu
 				j := strings.LastIndexByte(tl, '.')
 				for _, f := range strings.Split(parts[1], ",") {
-					cs.Guarded[pkgPath+"."+tl[:j]+"."+strings.TrimSpace(f)] = tl[j+1:]
+					f = strings.TrimSpace(f)
+					if !strings.Contains(f, ".") {
+						f = tl[:j] + "." + f
+					}
+					cs.Guarded[pkgPath+"."+f] = tl
 				}
 			}
+		case "nocall":
+			if cur != nil {
+				cur.NoCall = true
+			}
+		case "fn-type-pure":
+			for _, n := range strings.Split(rest, ",") {
+				cs.PureFnTypes[strings.TrimSpace(n)] = true
+			}
+			cs.Scan = append(cs.Scan, fmt.Sprintf("%s:%d: assumed: values of func type %s do not modify the package's memory", path, it.line, rest))
+		case "holds":
+			if cur != nil {
+				cur.Holds = append(cur.Holds, strings.TrimSpace(rest))
+			}
+		case "fn-sink":
+			// fn-sink (*T).field(params) requires E : precondition of calls through a func-typed field
+			sr, err := parseSink(strings.Replace(rest, "(", " call(", 1))
+			_ = sr
+			m := regexp.MustCompile(`^(\(\*?\w+\)\.\w+)\(([^)]*)\)\s+requires\s+(.*)$`).FindStringSubmatch(rest)
+			if m == nil {
+				return fmt.Errorf("%s:%d: bad fn-sink (%v)", path, it.line, err)
+			}
+			fs := &SinkRule{Owner: m[1], Method: "()", Pkg: pkgPath}
+			for _, pn := range strings.Split(m[2], ",") {
+				if pn = strings.TrimSpace(pn); pn != "" {
+					fs.Params = append(fs.Params, pn)
+				}
+			}
+			c, err2 := mkClause("requires", m[3])
+			if err2 != nil {
+				return err2
+			}
+			fs.Req = append(fs.Req, c)
+			cs.Sinks = append(cs.Sinks, fs)
 		case "immutable":
 			for _, f := range strings.Split(rest, ",") {
 				cs.Immut[pkgPath+"."+strings.TrimSpace(f)] = true
